@@ -93,11 +93,11 @@ func buildContracts(run *vh.Run) *cworld {
 		panic(err)
 	}
 	w := &cworld{run: run, csdb: csdb, cw: chain.VerifC11Worker(csdb)}
-	nc := 2 + rng.Intn(4)
+	nc := 3 + rng.Intn(4)
 	for i := 0; i < nc; i++ {
 		w.contracts = append(w.contracts, rng.Bytes(33))
 	}
-	nv := 2 + rng.Intn(10)
+	nv := 3 + rng.Intn(10)
 	for i := 0; i < nv; i++ {
 		w.vars = append(w.vars, []byte(fmt.Sprintf("_sv_v%d_%x", i, rng.Bytes(2))))
 	}
@@ -143,7 +143,7 @@ func buildContracts(run *vh.Run) *cworld {
 						batch = append(batch, kv{varKey(v), nil})
 					}
 				case rng.Chance(2, 5):
-					if _, ok := cur[string(v)]; ok && rng.Chance(1, 3) {
+					if _, ok := cur[string(v)]; ok && rng.Chance(1, 2) {
 						cs.DeleteData(v)
 						delete(cur, string(v))
 						batch = append(batch, kv{varKey(v), nil})
